@@ -288,7 +288,8 @@ class PCase:
     """
 
     def __init__(self, case_id, make, goals, *, extra_deg=2, budget_s=240.0, max_rows=120000,
-                 validate=True, interp_kw=None, assumptions=(), per_entry=False, deepen=1, sq_mode="all"):
+                 validate=True, interp_kw=None, assumptions=(), per_entry=False, deepen=1, sq_mode="all",
+                 exact_timeout_ms=20000):
         self.id = case_id
         self.make = make
         self.goals = goals
@@ -301,6 +302,7 @@ class PCase:
         self.per_entry = per_entry
         self.deepen = deepen
         self.sq_mode = sq_mode
+        self.exact_timeout_ms = exact_timeout_ms
 
     def run(self, seed=0, log=print, replay_dir=None):
         t0 = time.time()
@@ -403,6 +405,19 @@ class PCase:
                     return
             except Unsupported as ex:
                 res["translator_validation"] = {"ok": None, "note": str(ex)}
+        # --- vacuity witness: the hypotheses (contracts, definitions, case assumptions) are satisfiable at the sampled inputs;
+        # an inconsistent system would discharge every obligation
+        if dom.hyps:
+            try:
+                vr, vts, vnv = exact_query(dom, [Poly.const(1)], env0, timeout_ms=int(os.environ.get("VERIF_VACUITY_MS", "5000")))
+            except Exception as ex:   # noqa: BLE001
+                vr, vts, vnv = f"error:{ex!r}", 0.0, 0
+            res["vacuity"] = {"hypotheses_satisfiable_at_sample": vr, "solver_s": round(vts, 2), "free_vars": vnv}
+            if vr == "unsat":
+                res["status"] = "inconclusive"
+                res["notes"].append("hypotheses are inconsistent at the sampled inputs: every obligation would be vacuous")
+                log(f"  [{self.id}] VACUOUS: hypotheses inconsistent at the sampled inputs")
+                return
         # --- obligations
         # cheap screen first: the real code vs the oracle in float64 at the seeded point.  A discrepancy
         # there goes straight to refutation (exact query + replay); agreement decides nothing.
@@ -472,7 +487,7 @@ class PCase:
             entry = {"attempt": attempt, "replay_discrepancy": bad, "max_abs_err": rep[label]["max_abs_err"]}
             if bad:
                 try:
-                    r, ts, nv = exact_query(dom, [g for g in goals if g.t], env)
+                    r, ts, nv = exact_query(dom, [g for g in goals if g.t], env, timeout_ms=self.exact_timeout_ms)
                 except Exception as ex:
                     r, ts, nv = f"error:{ex!r}", 0.0, 0
                 entry.update({"exact_query": r, "solver_s": round(ts, 2), "free_vars": nv})
